@@ -19,8 +19,10 @@ enum Op {
     Open2,
     Batch,
     Comb,
+    /// open([constant polynomial with a degree bound where the scheme has bounds, p0]) at z1
+    OpenConst,
 }
-const OPS: [Op; 4] = [Op::Open1, Op::Open2, Op::Batch, Op::Comb];
+const OPS: [Op; 5] = [Op::Open1, Op::Open2, Op::Batch, Op::Comb, Op::OpenConst];
 
 enum AnyProof<S: Sch> {
     Single(Pf<S>),
@@ -47,8 +49,9 @@ fn prove<S: Sch>(ctx: &Ctx<S>, op: Op, sponge: &mut Sponge<S::F>, seed: u64) -> 
     match op {
         Op::Open1 => do_open::<S>(&ctx.keys.ck, &polys[..1], &comms[..1], &ctx.z1, sponge, &states[..1], rng).map(AnyProof::Single),
         Op::Open2 => do_open::<S>(&ctx.keys.ck, &polys[..2], &comms[..2], &ctx.z2, sponge, &states[..2], rng).map(AnyProof::Single),
-        Op::Batch => do_batch_open::<S>(&ctx.keys.ck, &polys, &comms, &ctx.qs, sponge, &states, rng).map(AnyProof::Batch),
-        Op::Comb => do_open_comb::<S>(&ctx.keys.ck, &ctx.lcs, &polys, &comms, &ctx.lc_qs, sponge, &states, rng).map(AnyProof::Comb),
+        Op::Batch => do_batch_open::<S>(&ctx.keys.ck, &polys[..2], &comms[..2], &ctx.qs, sponge, &states[..2], rng).map(AnyProof::Batch),
+        Op::Comb => do_open_comb::<S>(&ctx.keys.ck, &ctx.lcs, &polys[..2], &comms[..2], &ctx.lc_qs, sponge, &states[..2], rng).map(AnyProof::Comb),
+        Op::OpenConst => do_open::<S>(&ctx.keys.ck, &[polys[2], polys[0]], &[comms[2], comms[0]], &ctx.z1, sponge, &[states[2], states[0]], rng).map(AnyProof::Single),
     }
 }
 
@@ -64,8 +67,12 @@ fn verify<S: Sch>(ctx: &Ctx<S>, op: Op, proof: &AnyProof<S>, sponge: &mut Sponge
             let v: Vec<S::F> = ctx.c.polys[..2].iter().map(|q| q.polynomial().evaluate(&ctx.z2)).collect();
             do_check::<S>(&ctx.keys.vk, &comms[..2], &ctx.z2, &v, p, sponge, Some(&mut rng as &mut dyn RngCore))
         }
-        (Op::Batch, AnyProof::Batch(p)) => do_batch_check::<S>(&ctx.keys.vk, &comms, &ctx.qs, &ctx.evals, p, sponge, &mut rng),
-        (Op::Comb, AnyProof::Comb(p)) => do_check_comb::<S>(&ctx.keys.vk, &ctx.lcs, &comms, &ctx.lc_qs, &ctx.lc_evals, p, sponge, &mut rng),
+        (Op::Batch, AnyProof::Batch(p)) => do_batch_check::<S>(&ctx.keys.vk, &comms[..2], &ctx.qs, &ctx.evals, p, sponge, &mut rng),
+        (Op::Comb, AnyProof::Comb(p)) => do_check_comb::<S>(&ctx.keys.vk, &ctx.lcs, &comms[..2], &ctx.lc_qs, &ctx.lc_evals, p, sponge, &mut rng),
+        (Op::OpenConst, AnyProof::Single(p)) => {
+            let v = vec![ctx.c.polys[2].polynomial().evaluate(&ctx.z1), ctx.c.polys[0].polynomial().evaluate(&ctx.z1)];
+            do_check::<S>(&ctx.keys.vk, &[comms[2], comms[0]], &ctx.z1, &v, p, sponge, Some(&mut rng as &mut dyn RngCore))
+        }
         _ => Dec::Err("proof kind mismatch".into()),
     }
 }
@@ -82,7 +89,17 @@ fn build_ctx<S: Sch>(rec: &mut Rec) -> Option<Ctx<S>> {
     let cfg = slice_b::<S>();
     let keys = build_keys::<S>(&cfg, rec.seed).ok()?;
     // non-constant polynomials only (the property's own restriction for the binding half)
-    let polys: Vec<LP<S>> = slice_b_polys::<S>(&cfg, rec.seed).into_iter().take(2).collect();
+    let mut polys: Vec<LP<S>> = slice_b_polys::<S>(&cfg, rec.seed).into_iter().take(2).collect();
+    // a constant polynomial (degree-bounded where the scheme has bounds, not hiding): it takes part in the
+    // lock-step half only, always together with the non-constant p0 (the binding half excludes constants)
+    let bound = polys[1].degree_bound();
+    let konst = S::shapes(&cfg, rec.seed).into_iter().find(|(n, _)| n == "const").map(|x| x.1);
+    if let Some(k) = konst {
+        polys.push(lp::<S>("pc", k, bound, None));
+    } else {
+        let p0 = polys[0].polynomial().clone();
+        polys.push(lp::<S>("pc", p0, None, None));
+    }
     let c = commit_set::<S>(&keys, polys, rec.seed, 0).ok()?;
     let labels = slice_b_labels::<S>(&cfg, rec.seed);
     let (z1, z2) = (labels[0].1.clone(), labels[2].1.clone());
@@ -219,7 +236,7 @@ pub fn scheme<S: Sch>(rec: &mut Rec, depth: usize) {
                 }
             };
             rec.dim("scheme", S::NAME);
-            rec.sample(&format!("{}-hist", S::NAME), format!("{}: all histories over {{Open1,Open2,Batch,Comb}} of length <= {} starting with {:?}; accept + sponge equality at every node; moved proofs and foreign pre-states rejected", id, depth, op));
+            rec.sample(&format!("{}-hist", S::NAME), format!("{}: all histories over {{Open1,Open2,Batch,Comb,OpenConst}} of length <= {} starting with {:?}; accept + sponge equality at every node; moved proofs and foreign pre-states rejected", id, depth, op));
             // restrict the first level to `op` by running a one-op DFS manually
             let ps = sponge_pre::<S::F>(pre);
             let vs = sponge_pre::<S::F>(pre);
